@@ -1132,6 +1132,55 @@ func c01Prog(s *source, e *emitter, rel, goName, lean string, nparams int) {
 	e.printf("]\n\n")
 }
 
+
+// c01Wrapper handles a function whose body is `return outer(inner(a0, a1, func(err error) bool {…}))`: it emits the
+// names of the two calls, the forwarded argument list (the closure as "<closure>") and the closure's body as a typed
+// program, so that Tie.lean can prove the wrapper transparent (arguments forwarded unchanged, closure ≡ the predicate
+// it wraps).
+func c01Wrapper(s *source, e *emitter, rel, goName, lean string) {
+	fd := s.findFunc(rel, goName)
+	outer, inner := "", ""
+	var args []string
+	c := &c01ProgT{s: s}
+	ok := false
+	if fd != nil && fd.Body != nil && len(fd.Body.List) == 1 {
+		if rs, isRet := fd.Body.List[0].(*ast.ReturnStmt); isRet && len(rs.Results) == 1 {
+			if oc, isCall := rs.Results[0].(*ast.CallExpr); isCall && len(oc.Args) == 1 {
+				if ic, isCall2 := oc.Args[0].(*ast.CallExpr); isCall2 {
+					outer, inner = s.src(oc.Fun), s.src(ic.Fun)
+					nlit := 0
+					for _, a := range ic.Args {
+						if lit, isLit := a.(*ast.FuncLit); isLit {
+							nlit++
+							args = append(args, "<closure>")
+							c.block(lit.Body.List)
+						} else {
+							args = append(args, s.src(a))
+						}
+					}
+					ok = nlit == 1
+				}
+			}
+		}
+	}
+	if !ok {
+		e.errors = append(e.errors, fmt.Sprintf("%s: not of the form return outer(inner(…, func…))", goName))
+	}
+	for _, er := range c.errs {
+		e.errors = append(e.errors, goName+": "+er)
+	}
+	e.printf("/-- `%s` in %s: `return <outer>(<inner>(args…))` -/\ndef %sOuter : String := %s\ndef %sInner : String := %s\ndef %sArgs : List String := %s\n\n",
+		goName, rel, lean, leanString(outer), lean, leanString(inner), lean, c01StrList(args))
+	e.printf("/-- the closure `%s` hands on instead of its predicate, as a typed program -/\ndef %sClosure : List Tok := [", goName, lean)
+	for i, t := range c.toks {
+		if i > 0 {
+			e.printf(",")
+		}
+		e.printf("\n  %s", t)
+	}
+	e.printf("]\n\n")
+}
+
 func init() {
 	register("C01", func(s *source, e *emitter) {
 		const gb = "core/breaker/googlebreaker.go"
@@ -1320,9 +1369,15 @@ func init() {
 		}
 		// ---- typed effect programs: the order of accept / mark / defer / request / return, run by Tie.lean's interpreter
 		e.printf("%s", c01TokDecl)
+		c01Prog(s, e, gb, "googleBreaker.accept", "progAccept", -1)
 		c01Prog(s, e, gb, "googleBreaker.doReq", "progDoReq", -1)
 		c01Prog(s, e, gb, "googleBreaker.allow", "progAllow", -1)
 		c01Prog(s, e, rh, "BreakerHandler", "progRestHandler", 2)
+		c01Wrapper(s, e, br, "loggedThrottle.doReq", "loggedDoReq")
+		c01Prog(s, e, br, "loggedThrottle.logError", "progLogError", -1)
+		c01Prog(s, e, br, "loggedThrottle.allow", "progLoggedAllow", -1)
+		c01Prog(s, e, br, "promiseWithReason.Accept", "progPromiseAccept", -1)
+		c01Prog(s, e, br, "promiseWithReason.Reject", "progPromiseReject", -1)
 		// breakers.go
 		const bs = "core/breaker/breakers.go"
 		e.shapeDef(s, bs, "GetBreaker", "getBreakerShape")
